@@ -244,8 +244,8 @@ func (s *sched) drain() {
 type execCtl struct {
 	s      *sched
 	filter func(p *proc) bool // optional: which parked procs may be released now
-	extra func() []func() // environment actions enabled now (besides releasing a proc)
-	done  func(deadlock bool, choices []int)
+	extra  func() []func()    // environment actions enabled now (besides releasing a proc)
+	done   func(deadlock bool, choices []int)
 }
 
 // exploreFrom is explore resumable across processes: it starts at the schedule identified by `prefix`
